@@ -44,8 +44,8 @@ M = [
  ("seqlock_no_acquire_fence", "C03", "xenium/seqlock.hpp",
   "  // (6) - this acquire-fence synchronizes-with the release-fence (7)\n  XENIUM_THREAD_FENCE(std::memory_order_acquire);",
   "  // (6) - this acquire-fence synchronizes-with the release-fence (7)\n"),
- ("ms_pop_no_head_recheck", "C04", "xenium/michael_scott_queue.hpp",
-  "    if (_head.load(std::memory_order_relaxed).get() != h.get()) {\n      continue;\n    }\n", ""),
+ # (ms_pop_no_head_recheck was equivalent - the head re-check in pop is an optimisation once both nodes are guarded:
+ #  the final CAS on _head decides - and is gone)
  ("ram_invalidate_load", "C04", "xenium/ramalhete_queue.hpp",
   "    value = h->entries[idx].value.exchange(marked_value(nullptr, 1), std::memory_order_acquire);",
   "    value = h->entries[idx].value.load(std::memory_order_acquire);"),
@@ -71,17 +71,17 @@ M = [
  ("nik_steal_init_no_moveback", "C07", "xenium/nikolaev_queue.hpp",
   "      value = std::move(data);\n      data.~T(); // NOLINT (use-after-move)\n      _free_queue.enqueue<false, false>(idx, entries_per_node, remap_shift);\n    }\n\n    bool try_push",
   "      data.~T(); // NOLINT (use-after-move)\n      _free_queue.enqueue<false, false>(idx, entries_per_node, remap_shift);\n    }\n\n    bool try_push"),
- ("hm_find_no_prev_recheck", "C08", "xenium/harris_michael_list_based_set.hpp",
-  "      if (info.prev->load(std::memory_order_relaxed) != info.cur.get()) {\n        goto retry; // cur might be cut from list.\n      }\n", ""),
- ("hm_insert_ignores_mark", "C08", "xenium/harris_michael_hash_map.hpp",
-  "      if (data.greater_or_equal(hash, key)) {\n        return data.value.first == key;\n      }",
-  "      if (data.greater_or_equal(hash, key)) {\n        return data.value.first == key && hash == data.get_hash();\n      }\n      if (false) {\n      }"),
+ # (two earlier C08 mutants were equivalent and are gone: dropping find()'s prev re-check is harmless because every
+ #  modification CASes against an unmarked expected value, and comparing the hash in addition to the key changes nothing)
+ ("hm_find_marked_start_no_restart", "C08", "xenium/harris_michael_list_based_set.hpp",
+  "  info.next = info.prev->load(std::memory_order_relaxed);\n  if (info.next.mark() != 0) {",
+  "  info.next = info.prev->load(std::memory_order_relaxed);\n  if (false) {"),
  ("hm_iter_plain_next", "C09", "xenium/harris_michael_list_based_set.hpp",
   "  while (next.mark() == 0 && !tmp_guard.acquire_if_equal(info.cur->next, next, std::memory_order_acquire)) {\n    next = info.cur->next.load(std::memory_order_relaxed);\n  }",
   "  if (next.mark() == 0) tmp_guard = guard_ptr(next);"),
  ("vmap_no_version_bump", "C10", "xenium/impl/vyukov_hash_map.hpp",
-  "      unlocker.unlock(state.new_version(), std::memory_order_release);\n      free_extension_item(extension);\n      return true;",
-  "      unlocker.unlock(state, std::memory_order_release);\n      free_extension_item(extension);\n      return true;"),
+  "      unlocker.unlock(state.new_version(), std::memory_order_release);\n\n      free_extension_item(extension);\n      return true;",
+  "      unlocker.unlock(state, std::memory_order_release);\n\n      free_extension_item(extension);\n      return true;"),
  ("vmap_iter_erase_no_second_bump", "C11", "xenium/impl/vyukov_hash_map.hpp",
   "    pos.current_bucket_state = locked_state.new_version().clear_lock();",
   "    pos.current_bucket_state = pos.current_bucket_state;"),
@@ -127,7 +127,7 @@ def main():
             results.append((name, prop, "noapply", 0))
             continue
         t0 = time.time()
-        env = dict(os.environ, XSIM_TIME=os.environ.get("XSIM_TIME", "20"))
+        env = dict(os.environ)
         r = subprocess.run([os.path.join(ROOT, "check"), prop, "quick"], capture_output=True, text=True, env=env)
         dt = time.time() - t0
         viol = [l for l in r.stdout.splitlines() if l.startswith("VIOLATION")]
@@ -136,7 +136,9 @@ def main():
         print("%-34s %s  %-8s %5.0fs  %s" % (name, prop, status, dt, ",".join(sorted(set(cls)))[:80]), flush=True)
         results.append((name, prop, status, dt))
         subprocess.run(["git", "-C", REPO, "checkout", "--", "xenium"], check=True)
-    json.dump(results, open(os.path.join(ROOT, "build", "mutants_last.json"), "w"), indent=1)
+    # evidence and replay files written by these runs describe mutated trees: drop them
+    subprocess.run("git checkout -- evidence replays; git clean -fdq replays", shell=True, cwd=ROOT)
+    json.dump(results, open(os.path.join(ROOT, "tools", "mutants_last.json"), "w"), indent=1)
 
 
 if __name__ == "__main__":
